@@ -537,7 +537,11 @@ class Executor:
                 if not getattr(body, "parsed", False):
                     raise Unsupported("constant with unparsed body: " + k)
                 st = State()
-                return self.exec_fn(body, [], st)
+                v = self.exec_fn(body, [], st, keep_frame=True)
+                # promoted constants return a reference to their own local: snapshot it
+                if isinstance(v, VRef) and v.kind == "place":
+                    v = VRef("val", val=self._read_raw(st, v.fid, v.local, v.proj))
+                return v
             return self.const_value(body, None)
         # unit enum variant / fn item used as a value
         segs = name.split("::")
@@ -873,7 +877,7 @@ class Executor:
             if op == "PtrMetadata":
                 if isinstance(v, VRef):
                     v = self.deref(st, v)
-                if isinstance(v, VSeq):
+                if isinstance(v, (VSeq, VList)):
                     return VInt(v.len, "usize")
             raise Unsupported("unop %s on %r" % (op, v))
         if k == "cast":
@@ -914,8 +918,12 @@ class Executor:
             if len(segs) >= 2 and segs[-2] in self.enums and segs[-1] in self.enums[segs[-2]]:
                 vi = self.enums[segs[-2]][segs[-1]]
                 return VEnum(segs[-2], I(vi), {vi: fields})
-            if segs[-1] in self.enums and not fields and len(segs) == 1:
-                raise Unsupported("bare enum name " + path)
+            if len(segs) == 1 and dest_ty:
+                # variant printed without its enum path (e.g. `Start(move _29)`): resolve through the destination type
+                en = strip_generics(dest_ty).split("::")[-1]
+                if en in self.enums and segs[0] in self.enums[en]:
+                    vi = self.enums[en][segs[0]]
+                    return VEnum(en, I(vi), {vi: fields})
             return VStruct(segs[-1], fields)
         if k == "len":
             v = self.read_place(st, fid, rv.a[0])
@@ -1014,7 +1022,8 @@ class Executor:
             for si, stmt in enumerate(blk.stmts):
                 if stmt.kind == "assign":
                     self._cur = (fn, bb, si)
-                    v = self.rvalue(s, fid, stmt.rv, fn)
+                    dty = fn.locals.get(stmt.place.local) if not stmt.place.proj else None
+                    v = self.rvalue(s, fid, stmt.rv, fn, dty)
                     self.write_place(s, fid, stmt.place, v)
                 elif stmt.kind == "setdiscr":
                     old = self.read_place(s, fid, stmt.place)
@@ -1152,6 +1161,14 @@ class Executor:
             return None
         key = strip_generics(name)
         target = idx.get(key)
+        if not target:
+            m = re.fullmatch(r"<([\w:]+) as ([\w:]+)>::(\w+)", key)
+            if m:
+                target = idx.get("<%s as %s>::%s" % (m.group(1).split("::")[-1], m.group(2).split("::")[-1], m.group(3)))
+            else:
+                m = re.fullmatch(r"([\w:]+)::(\w+)::(\w+)", key)
+                if m:
+                    target = idx.get("%s::%s" % (m.group(2), m.group(3)))
         if target:
             return self.find_fn(target)
         return None
